@@ -6,11 +6,14 @@ import (
 	"bytes"
 	"fmt"
 	"go/ast"
+	"go/constant"
 	"go/printer"
 	"go/token"
 	"go/types"
 	"sort"
 	"strings"
+
+	"golang.org/x/tools/go/ssa"
 )
 
 func init() {
@@ -23,6 +26,66 @@ func hcStmtString(fset *token.FileSet, s ast.Stmt) string {
 	printer.Fprint(&b, fset, s)
 	// normalise whitespace so that alignment differences do not matter
 	return strings.Join(strings.Fields(b.String()), " ")
+}
+
+// hcAlpha numbers the objects declared inside fd (receiver, parameters,
+// locals) in order of first mention, so that the statements of two sibling
+// functions can be compared up to a consistent renaming of their locals.
+type hcAlpha struct {
+	info *types.Info
+	fd   *ast.FuncDecl
+	num  map[types.Object]int
+	pars map[types.Object]int // receiver / parameters, by position
+}
+
+func (h *hcAlpha) local(id *ast.Ident) types.Object {
+	o := h.info.Defs[id]
+	if o == nil {
+		o = h.info.Uses[id]
+	}
+	if o == nil || o.Pos() < h.fd.Pos() || o.Pos() > h.fd.End() {
+		return nil
+	}
+	if v, ok := o.(*types.Var); ok && v.IsField() {
+		return nil
+	}
+	return o
+}
+
+// String prints s with every local identifier replaced by its number.
+func (h *hcAlpha) String(fset *token.FileSet, s ast.Stmt) string {
+	type saved struct {
+		id   *ast.Ident
+		name string
+	}
+	var undo []saved
+	ast.Inspect(s, func(n ast.Node) bool {
+		id, ok := n.(*ast.Ident)
+		if !ok || id.Name == "_" {
+			return true
+		}
+		o := h.local(id)
+		if o == nil {
+			return true
+		}
+		undo = append(undo, saved{id, id.Name})
+		if pk, isPar := h.pars[o]; isPar {
+			id.Name = fmt.Sprintf("p%d", pk)
+			return true
+		}
+		k, seen := h.num[o]
+		if !seen {
+			k = len(h.num) + 1
+			h.num[o] = k
+		}
+		id.Name = fmt.Sprintf("v%d", k)
+		return true
+	})
+	out := hcStmtString(fset, s)
+	for _, u := range undo {
+		u.id.Name = u.name
+	}
+	return out
 }
 
 func ruleHostCall(c *Ctx) []Obligation {
@@ -113,9 +176,15 @@ func ruleHostCall(c *Ctx) []Obligation {
 		if len(y.prefix) < n {
 			n = len(y.prefix)
 		}
+		ax := &hcAlpha{info: info, fd: x.fd, num: map[types.Object]int{}}
+		ay := &hcAlpha{info: info, fd: y.fd, num: map[types.Object]int{}}
+		// the receiver and the parameters correspond by position, not by first mention
+		hcSeedParams(ax)
+		hcSeedParams(ay)
 		for k := 0; k < n && diff == ""; k++ {
-			sx, sy := hcStmtString(c.Fset, x.prefix[k]), hcStmtString(c.Fset, y.prefix[k])
+			sx, sy := ax.String(c.Fset, x.prefix[k]), ay.String(c.Fset, y.prefix[k])
 			if sx != sy {
+				sx, sy = hcStmtString(c.Fset, x.prefix[k]), hcStmtString(c.Fset, y.prefix[k])
 				diff = fmt.Sprintf("statement %d differs: %s has `%s` (%s), %s has `%s` (%s)", k+1, x.fd.Name.Name, hcTrunc(sx), c.Pos(x.prefix[k].Pos()), y.fd.Name.Name, hcTrunc(sy), c.Pos(y.prefix[k].Pos()))
 			}
 		}
@@ -159,6 +228,37 @@ func ruleHostCall(c *Ctx) []Obligation {
 	return obs
 }
 
+// hcSeedParams: the receiver and the parameters are numbered by position (p1,
+// p2, …) in a namespace of their own, so that an extra trailing parameter of
+// one sibling (SpawnAsync's onFinish) does not shift the numbering of locals.
+func hcSeedParams(h *hcAlpha) {
+	add := func(id *ast.Ident) {
+		if id == nil || id.Name == "_" {
+			return
+		}
+		if o := h.info.Defs[id]; o != nil {
+			if h.pars == nil {
+				h.pars = map[types.Object]int{}
+			}
+			if _, seen := h.pars[o]; !seen {
+				h.pars[o] = len(h.pars) + 1
+			}
+		}
+	}
+	if h.fd.Recv != nil {
+		for _, f := range h.fd.Recv.List {
+			for _, id := range f.Names {
+				add(id)
+			}
+		}
+	}
+	for _, f := range h.fd.Type.Params.List {
+		for _, id := range f.Names {
+			add(id)
+		}
+	}
+}
+
 func hcTrunc(s string) string {
 	if len(s) > 140 {
 		return s[:140] + "…"
@@ -168,144 +268,121 @@ func hcTrunc(s string) string {
 
 func hcTerminationKinds(c *Ctx) []Obligation {
 	rt := c.Pkg("homescript/runtime")
-	info := rt.TypesInfo
+	a := determMod(c)
 	ht := c.MustFunc("homescript/runtime", "VM", "HandleTermination")
-	// the switch over the return type's kind
-	var sw *ast.SwitchStmt
-	ast.Inspect(ht.Body, func(n ast.Node) bool {
-		s, ok := n.(*ast.SwitchStmt)
-		if !ok || s.Tag == nil || sw != nil {
-			return true
-		}
-		if hcIsTypeKind(info.TypeOf(s.Tag)) {
-			sw = s
-		}
-		return true
-	})
+	htObj, _ := rt.TypesInfo.Defs[ht.Name].(*types.Func)
+	htFn := a.prog.FuncValue(htObj)
 	kindNames := hcTypeKinds(c)
-	if sw == nil {
-		return []Obligation{{Key: "runtime.VM.HandleTermination|switch over the return type kind", Status: Undecided, Pos: c.Pos(ht.Pos()), Detail: "no switch over ast.TypeKind found"}}
+	kindVals := hcTypeKindValues(c, kindNames)
+	swKey := "runtime.VM.HandleTermination|switch over the return type kind"
+	if htFn == nil || len(htFn.Blocks) == 0 {
+		return []Obligation{{Key: swKey, Status: Undecided, Pos: c.Pos(ht.Pos()), Detail: "no SSA body for HandleTermination"}}
 	}
-	reads := func(body []ast.Stmt) bool {
-		r := false
-		for _, s := range body {
-			ast.Inspect(s, func(n ast.Node) bool {
-				if ix, ok := n.(*ast.IndexExpr); ok {
-					if sel, ok := ast.Unparen(ix.X).(*ast.SelectorExpr); ok && sel.Sel.Name == "Stack" {
-						r = true
-					}
-				}
-				return true
-			})
-		}
-		return r
+	// anchors by type: the operand stack of a core, the declared return type of an invocation
+	coreT, _ := rt.Types.Scope().Lookup("Core").(*types.TypeName)
+	invT, _ := rt.Types.Scope().Lookup("FunctionInvocation").(*types.TypeName)
+	if coreT == nil || invT == nil {
+		fatalf("anchor unresolved: runtime.Core / runtime.FunctionInvocation")
 	}
-	skip := map[string]token.Pos{}
-	defaultReads, hasDefault := false, false
-	explicitRead := map[string]bool{}
-	for _, cl := range sw.Body.List {
-		cc := cl.(*ast.CaseClause)
-		r := reads(cc.Body)
-		if cc.List == nil {
-			hasDefault, defaultReads = true, r
-			continue
-		}
-		for _, e := range cc.List {
-			if k := ConstOf(info, e); k != nil {
-				if r {
-					explicitRead[k.Name()] = true
-				} else {
-					skip[k.Name()] = e.Pos()
-				}
+	var stackField *types.Var
+	if st, ok := coreT.Type().Underlying().(*types.Struct); ok {
+		for i := 0; i < st.NumFields(); i++ {
+			if st.Field(i).Name() == "Stack" {
+				stackField = st.Field(i)
 			}
 		}
+	}
+	if stackField == nil {
+		fatalf("anchor unresolved: runtime.Core.Stack")
+	}
+	retTypeFields := hcTypeFields(invT.Type(), 0)
+	if len(retTypeFields) == 0 {
+		fatalf("anchor unresolved: no field of interface type ast.Type below runtime.FunctionInvocation")
+	}
+	isFieldLoad := func(v ssa.Value, want func(*types.Var) bool) bool {
+		switch x := v.(type) {
+		case *ssa.Field:
+			return want(dmFieldOf(x.X.Type(), x.Field))
+		case *ssa.UnOp:
+			if fa, ok := x.X.(*ssa.FieldAddr); ok && x.Op == token.MUL {
+				return want(dmFieldOf(fa.X.Type(), fa.Field))
+			}
+		}
+		return false
+	}
+	isRetType := func(v ssa.Value) bool {
+		return isFieldLoad(v, func(f *types.Var) bool { return f != nil && retTypeFields[f] })
+	}
+	isStackRead := func(in ssa.Instruction) bool {
+		var base ssa.Value
+		switch x := in.(type) {
+		case *ssa.UnOp:
+			ia, ok := x.X.(*ssa.IndexAddr)
+			if x.Op != token.MUL || !ok {
+				return false
+			}
+			base = ia.X
+		case *ssa.Index:
+			base = x.X
+		default:
+			return false
+		}
+		return isFieldLoad(hcStrip(base), func(f *types.Var) bool { return f == stackField })
+	}
+	isCast := func(in ssa.Instruction) bool {
+		call, ok := in.(*ssa.Call)
+		if !ok {
+			return false
+		}
+		f := call.Common().StaticCallee()
+		return f != nil && f.Name() == "DeepCast" && f.Pkg != nil && strings.HasSuffix(f.Pkg.Pkg.Path(), "runtime/value")
+	}
+	inRuntime := func(f *ssa.Function) bool { return f.Pkg != nil && f.Pkg.Pkg == rt.Types }
+	type kres struct{ read, cast hcKindResult }
+	results := map[string]kres{}
+	usesKind := false
+	for _, name := range kindNames {
+		rd := (&hcKindEval{a: a, K: kindVals[name], isTypeSrc: isRetType, hit: isStackRead, descend: inRuntime}).run(htFn, hcBinding{}, 0)
+		cs := (&hcKindEval{a: a, K: kindVals[name], isTypeSrc: isRetType, hit: isCast, descend: inRuntime}).run(htFn, hcBinding{}, 0)
+		results[name] = kres{rd, cs}
+		if rd.usesKind {
+			usesKind = true
+		}
+	}
+	if !usesKind {
+		return []Obligation{{Key: swKey, Status: Undecided, Pos: c.Pos(ht.Pos()), Detail: "no branch of HandleTermination (or of the helpers of the package it calls) is decided by comparing the kind of the invocation's declared return type with a type-kind constant"}}
 	}
 	// compiler side: kinds for which an expression statement leaves no value
-	// (the condition guarding the emission of the drop instruction)
-	cp := c.Pkg("homescript/compiler")
-	noValue := map[string]bool{}
-	found := false
-	var condPos token.Pos
-	for _, fd := range AllFuncDecls(cp) {
-		ast.Inspect(fd.Body, func(n ast.Node) bool {
-			is, ok := n.(*ast.IfStmt)
-			if !ok || found {
-				return true
-			}
-			drops := false
-			for _, s := range is.Body.List {
-				ast.Inspect(s, func(m ast.Node) bool {
-					if id, ok := m.(*ast.Ident); ok {
-						if k, ok := cp.TypesInfo.Uses[id].(*types.Const); ok && strings.HasSuffix(k.Name(), "_Drop") {
-							drops = true
-						}
-					}
-					return true
-				})
-			}
-			if !drops {
-				return true
-			}
-			var kinds []string
-			okShape := true
-			var conj func(e ast.Expr)
-			conj = func(e ast.Expr) {
-				be, ok := ast.Unparen(e).(*ast.BinaryExpr)
-				if !ok {
-					okShape = false
-					return
-				}
-				if be.Op == token.LAND {
-					conj(be.X)
-					conj(be.Y)
-					return
-				}
-				if be.Op != token.NEQ {
-					okShape = false
-					return
-				}
-				k := ConstOf(cp.TypesInfo, be.Y)
-				call, isCall := ast.Unparen(be.X).(*ast.CallExpr)
-				if k == nil || !isCall {
-					okShape = false
-					return
-				}
-				if sel, ok := call.Fun.(*ast.SelectorExpr); !ok || sel.Sel.Name != "Kind" {
-					okShape = false
-					return
-				}
-				if !hcIsTypeKind(cp.TypesInfo.TypeOf(call)) {
-					okShape = false
-					return
-				}
-				kinds = append(kinds, k.Name())
-			}
-			conj(is.Cond)
-			if okShape && len(kinds) > 0 {
-				found = true
-				condPos = is.Pos()
-				for _, k := range kinds {
-					noValue[k] = true
-				}
-			}
-			return true
-		})
-	}
+	// (the emission of the drop instruction is unreachable for them)
+	leavesValue, condPos, found := hcCompilerLeaves(c, a, kindNames, kindVals)
 	if !found {
-		return []Obligation{{Key: "compiler|drop condition of expression statements", Status: Undecided, Detail: "cannot find `if <expr>.Kind() != <TypeKind> { … Opcode_Drop … }` in the compiler: the oracle for `which kinds leave a value` moved"}}
+		return []Obligation{{Key: "compiler|drop condition of expression statements", Status: Undecided, Detail: "cannot find an emission of Opcode_Drop in the compiler that is controlled by a comparison of a type kind: the oracle for `which kinds leave a value` moved"}}
+	}
+	noValue := map[string]bool{}
+	for _, name := range kindNames {
+		if !leavesValue[name] {
+			noValue[name] = true
+		}
 	}
 	// kinds that never yield a value at run time by construction: a function of
 	// type never does not return; unknown only exists after a reported error.
 	exempt := map[string]string{"NeverTypeKind": "a function returning `never` does not return normally", "UnknownTypeKind": "the unknown type only exists in programs the analyzer rejected"}
 	var obs []Obligation
 	for _, name := range kindNames {
-		_, skipped := skip[name]
-		readsVal := explicitRead[name] || (!skipped && hasDefault && defaultReads)
-		ob := Obligation{Key: "runtime.VM.HandleTermination|return kind " + name, Pos: c.Pos(sw.Pos()), Nontrivial: true}
-		if p, ok := skip[name]; ok {
-			ob.Pos = c.Pos(p)
+		r := results[name]
+		readsVal := r.read.hit
+		ob := Obligation{Key: "runtime.VM.HandleTermination|return kind " + name, Pos: c.Pos(ht.Pos()), Nontrivial: true}
+		switch {
+		case readsVal && r.read.hitPos.IsValid():
+			ob.Pos = c.Pos(r.read.hitPos)
+		case !readsVal && r.read.prunePos.IsValid():
+			ob.Pos = c.Pos(r.read.prunePos)
 		}
 		leaves := !noValue[name]
+		how := "reads and casts it"
+		if !r.cast.hit {
+			how = "reads it (no DeepCast on that path: see R-cast-boundary)"
+		}
 		switch {
 		case exempt[name] != "":
 			ob.Status, ob.Detail = Discharged, exempt[name]+" (no value is read)"
@@ -313,7 +390,7 @@ func hcTerminationKinds(c *Ctx) []Obligation {
 				ob.Detail = exempt[name] + " (a value would be read; harmless)"
 			}
 		case leaves && readsVal:
-			ob.Status, ob.Detail = Discharged, fmt.Sprintf("compiled code leaves a value for this kind (compiler drop condition at %s) and HandleTermination reads and casts it", c.Pos(condPos))
+			ob.Status, ob.Detail = Discharged, fmt.Sprintf("compiled code leaves a value for this kind (compiler drop condition at %s) and HandleTermination %s", c.Pos(condPos), how)
 		case !leaves && !readsVal:
 			ob.Status, ob.Detail = Discharged, fmt.Sprintf("compiled code leaves no value for this kind (compiler drop condition at %s) and none is read", c.Pos(condPos))
 		case leaves && !readsVal:
@@ -326,6 +403,121 @@ func hcTerminationKinds(c *Ctx) []Obligation {
 		obs = append(obs, ob)
 	}
 	return obs
+}
+
+// hcTypeFields: the struct fields of interface type ast.Type reachable from t
+// through struct-typed fields (FunctionInvocation.FunctionSignature.ReturnType).
+func hcTypeFields(t types.Type, depth int) map[*types.Var]bool {
+	out := map[*types.Var]bool{}
+	st, ok := t.Underlying().(*types.Struct)
+	if !ok || depth > 2 {
+		return out
+	}
+	for i := 0; i < st.NumFields(); i++ {
+		f := st.Field(i)
+		if n, ok := f.Type().(*types.Named); ok {
+			if _, isI := n.Underlying().(*types.Interface); isI && n.Obj().Name() == "Type" && n.Obj().Pkg() != nil && strings.HasSuffix(n.Obj().Pkg().Path(), "analyzer/ast") {
+				out[f] = true
+				continue
+			}
+		}
+		for k := range hcTypeFields(f.Type(), depth+1) {
+			out[k] = true
+		}
+	}
+	return out
+}
+
+func hcTypeKindValues(c *Ctx, names []string) map[string]constant.Value {
+	p := c.Pkg("homescript/analyzer/ast")
+	out := map[string]constant.Value{}
+	for _, n := range names {
+		k, _ := p.Types.Scope().Lookup(n).(*types.Const)
+		if k == nil || k.Val().Kind() != constant.Int {
+			fatalf("anchor unresolved: type kind constant ast.%s", n)
+		}
+		out[n] = k.Val()
+	}
+	return out
+}
+
+// hcCompilerLeaves: for every type kind, whether the compiler's emission of the
+// drop instruction that is guarded by a type-kind comparison stays reachable.
+func hcCompilerLeaves(c *Ctx, a *dmAnalysis, kindNames []string, kindVals map[string]constant.Value) (map[string]bool, token.Pos, bool) {
+	cp := c.Pkg("homescript/compiler")
+	var drop *types.Const
+	for _, n := range cp.Types.Scope().Names() {
+		if k, ok := cp.Types.Scope().Lookup(n).(*types.Const); ok && strings.HasSuffix(k.Name(), "_Drop") {
+			drop = k
+		}
+	}
+	if drop == nil {
+		return nil, token.NoPos, false
+	}
+	type site struct {
+		fn   *ssa.Function
+		call ssa.Instruction
+		ops  map[ssa.Value]bool
+	}
+	var sites []site
+	for _, fn := range a.funcs {
+		if fn.Pkg == nil || fn.Pkg.Pkg != cp.Types {
+			continue
+		}
+		for _, b := range fn.Blocks {
+			for _, in := range b.Instrs {
+				call, ok := in.(*ssa.Call)
+				if !ok {
+					continue
+				}
+				isDrop := false
+				for _, arg := range call.Common().Args {
+					if k, ok := hcStrip(arg).(*ssa.Const); ok && k.Value != nil && types.Identical(k.Type(), drop.Type()) && constant.Compare(k.Value, token.EQL, drop.Val()) {
+						isDrop = true
+					}
+				}
+				if !isDrop {
+					continue
+				}
+				if ops := hcKindCondOperands(b); len(ops) > 0 {
+					sites = append(sites, site{fn, in, ops})
+				} else if len(fn.Blocks) == 1 && fn.Object() != nil && !fn.Object().Exported() {
+					// a straight-line emit helper (`func (c *Compiler) drop(span) { c.insert(… Opcode_Drop …) }`):
+					// its call sites are the emission sites
+					for _, caller := range a.sortedCallers(fn) {
+						for _, cb := range caller.Blocks {
+							for _, cin := range cb.Instrs {
+								if cc, ok := cin.(*ssa.Call); ok && cc.Common().StaticCallee() == fn {
+									if ops := hcKindCondOperands(cb); len(ops) > 0 {
+										sites = append(sites, site{caller, cin, ops})
+									}
+								}
+							}
+						}
+					}
+				}
+			}
+		}
+	}
+	if len(sites) == 0 {
+		return nil, token.NoPos, false
+	}
+	sort.Slice(sites, func(i, j int) bool { return c.Pos(sites[i].call.Pos()) < c.Pos(sites[j].call.Pos()) })
+	s := sites[0]
+	leaves := map[string]bool{}
+	var pos token.Pos
+	for _, name := range kindNames {
+		ev := &hcKindEval{a: a, K: kindVals[name], isKindSrc: func(v ssa.Value) bool { return s.ops[v] }, hit: func(in ssa.Instruction) bool { return in == s.call }}
+		r := ev.run(s.fn, hcBinding{}, 0)
+		leaves[name] = r.hit
+		if !r.hit && r.prunePos.IsValid() && !pos.IsValid() {
+			pos = r.prunePos
+		}
+	}
+	if !pos.IsValid() {
+		pos = s.call.Pos()
+	}
+	return leaves, pos, true
 }
 
 func hcKeys(m map[string]bool) string {
@@ -395,6 +587,6 @@ func hcTypeKinds(c *Ctx) []string {
 	for k := range set {
 		names = append(names, k)
 	}
-	sort.Slice(names, func(i, j int) bool { return set[names[i]] < set[names[j]] })
+	sort.Slice(names, func(i, j int) bool { return dmPosLess(c, set[names[i]], set[names[j]]) })
 	return names
 }
